@@ -222,6 +222,13 @@ def run(ctx):
                     cal = pkg.module(q.split(".")[0]).funcs.get(q)
                     if cal is not None and vectorised_big_endian(cal.node):
                         ok = True
+        if not ok and isinstance(got, Form):
+            # the same expansion in closed form: bit j (most significant first) of p is (p >> (k-1-j)) & 1, one row per symbol, read row by row
+            allr = SliceV(Const(None), Const(None), Const(None))
+            shifts = Form.atom(("idx", mk_fn("arange", [k]), SliceV(Const(None), Const(None), Form.num(-1))))
+            col = Form.atom(("idx", pos, TupleV([allr, Const(None)])))
+            rows = mk_fn("band", [mk_fn("rshift", [col, shifts]), Form.num(1)])
+            ok = got in (mk_fn("ravel", [rows]), mk_fn("reshape", [rows, Form.num(-1)]))
         ctx.check("C12.3", ok, fd, rets[0].node, "PPM_DECODER: ON position mod M -> dec2bin(., k)", "inverse of the encoder on whole symbols", why)
     else:
         ctx.unknown("C12.3", fd, fd.node, "PPM_DECODER", f"{len(rets)} return paths")
@@ -242,7 +249,22 @@ def run(ctx):
     cnt = mk_fn("sum", [mk_fn("reshape", [D, nsym, M])], [("axis", Form.num(-1))])
     i_empty = mk_fn("elem", [Form.atom(("idx", mk_fn("where", [mk_fn("eq", [cnt, Form.num(0)])]), Form.num(0)))])
     i_multi = mk_fn("elem", [Form.atom(("idx", mk_fn("where", [mk_fn("gt", [cnt, Form.num(1)])]), Form.num(0)))])
-    stores = [x for x in it.store_log if x[5] == 0 and x[2][0] == "idx"]
+    # the number of symbols: the length is a whole number of symbols here (guard above), so size//M, int(size/M) and reshape(-1, M) agree
+    alt_n = [mk_fn("floordiv", [S("input.data.size"), M]), mk_fn("floordiv", [mk_fn("size", [D]), M]), mk_fn("floordiv", [mk_fn("len", [D]), M])]
+
+    def canon(f):
+        if isinstance(f, SliceV):
+            return SliceV(canon(f.lo), canon(f.hi), canon(f.step))
+        if not isinstance(f, Form):
+            return f
+
+        def sub(a):
+            if a[0] == "fn" and a[1] == "reshape" and len(a[2]) == 3 and isinstance(a[2][1], Form) and isinstance(a[2][2], Form) and a[2][2] == M \
+                    and (a[2][1] in alt_n or a[2][1] == Form.num(-1)) and not a[3]:
+                return Form.atom(("fn", "reshape", (canon(a[2][0]), nsym, M), ()))
+            return None
+        return f.subst(sub)
+    stores = [(x[0], x[1], (x[2][0], x[2][1], canon(x[2][2])) + tuple(x[2][3:]), x[3], x[4], x[5]) for x in it.store_log if x[5] == 0 and x[2][0] == "idx"]
     st_empty = [x for x in stores if isinstance(x[2][2], Form) and any(a[0] == "fn" and a[1] == "numpy.random.randint" for a in x[2][2].atoms())]
     st_clear = [x for x in stores if isinstance(x[2][2], SliceV)]
     st_keep = [x for x in stores if isinstance(x[2][2], Form) and any(a[0] == "fn" and a[1] == "numpy.random.choice" for a in x[2][2].atoms())]
